@@ -87,7 +87,12 @@ func (o *UntypedRequestBinder) Bind(request *http.Request, routeParams RoutePara
 		}
 
 		if binder.validator != nil {
-			rr := binder.validator.Validate(target.Interface())
+			value := target.Interface()
+			if target.Kind() == reflect.String {
+				// the validators expect plain strings, also for formats bound as a named string type (e.g. strfmt.UUID)
+				value = target.String()
+			}
+			rr := binder.validator.Validate(value)
 			if rr != nil && rr.HasErrors() {
 				result = append(result, rr.AsError())
 			}
